@@ -122,6 +122,8 @@ impl Scenario for AcceptScenario {
             cfg.assocs.push(b);
         }
         let other = 1025;
+        // in a third of the runs every user read hands over its own handler (read_with_handler)
+        let custom_reads = rng.chance(1, 3);
         let mut script = vec![MOp::Enable, MOp::Sleep(1)];
         if rng.chance(1, 5) {
             // start-up gating: the integrity poll is answered late, data arrives unsolicited before it has completed and is
@@ -197,7 +199,10 @@ impl Scenario for AcceptScenario {
             }
             script.push(MOp::User {
                 assoc: 0,
-                kind: gen_user_request(rng),
+                kind: match gen_user_request(rng) {
+                    UserKind::ReadClasses(m) if custom_reads => UserKind::ReadCustom(m),
+                    k => k,
+                },
             });
             if rng.chance(1, 4) {
                 // unsolicited in the middle of the task
@@ -762,6 +767,44 @@ pub fn analyse(
                     ),
                 ));
                 break;
+            }
+        }
+    }
+    // H: a handler handed over with a user read receives the fragments of user reads and nothing else; the association's handler
+    // receives everything else (judged when all user reads of the run are of one kind)
+    let n_custom = case
+        .script
+        .iter()
+        .filter(|op| matches!(op, MOp::User { kind: UserKind::ReadCustom(_), .. }))
+        .count();
+    let n_plain = case
+        .script
+        .iter()
+        .filter(|op| matches!(op, MOp::User { kind: UserKind::ReadClasses(_), .. }))
+        .count();
+    if violation.is_none() {
+        for (_, h) in &hist {
+            if let H::Begin { assoc, read_type, uns, .. } = h {
+                let custom = read_type.starts_with("Custom:");
+                let single = read_type.ends_with("SinglePoll");
+                let bad = if custom && (!single || *uns || n_custom == 0) {
+                    Some("request-handler-received-foreign-fragment")
+                } else if !custom && single && n_plain == 0 && n_custom > 0 {
+                    Some("association-handler-received-response-of-read-with-handler")
+                } else {
+                    None
+                };
+                if custom {
+                    *counters.entry("probe.fragment_delivered_to_request_handler".to_string()).or_insert(0) += 1;
+                }
+                if let Some(kind) = bad {
+                    violation = Some(Violation::new(
+                        "C15/fragment-delivered-to-wrong-handler",
+                        kind,
+                        format!("a fragment of read type {} (unsolicited: {}) of association {} was delivered to the {} handler", read_type, uns, assoc, if custom { "request's own" } else { "association's" }),
+                    ));
+                    break;
+                }
             }
         }
     }
